@@ -23,7 +23,7 @@ class C09(Prop):
     REQUIRED_CLASSES = ["formatted_nested", "string_with_escapes", "number_17_digits", "depth>=10", "empty_raw", "truthy_format_flag", "root_with_ownership_flags"]
 
     def budget(self, tier):
-        return {"workers": 12, "examples": 700 if tier == "quick" else 20000}
+        return {"workers": 12, "examples": 1400 if tier == "quick" else 20000}
 
     def strategy(self, tier):
         numbers = st.one_of(gens.finite_doubles(), gens.top_doubles(), st.sampled_from([math.inf, math.nan]))
